@@ -13,8 +13,86 @@
 -/
 import YtkModel.Generated.Constants
 import YtkProofs.DocSet
+import YtkProofs.DecisionsDocSet
 
 namespace Ytk.C18
+
+/-! ## decision tables regenerated from the source (extract/tables2.go) -/
+section DecisionTables2
+open Ytk.TableT Ytk.DocSet
+
+/-- (i) The re-add decision of documentSet.addContext as regenerated from analytics/document_set.go —
+    the lookup and one arm per path through `if exists { if mergeFn != nil … else … } else …`, with the
+    statements of each in order — IS the arm table of the model, applyOpts / newContext / defaultOpts
+    and the three option constructors are the model's; `addContext` equals the function that picks
+    the arm in that table and runs its statements, on ALL inputs; the options do to the context what the
+    table says and are applied defaults first. -/
+theorem docset_add_table_matches_model :
+    Generated.docsetAddLookup = addLookupM ∧
+    Generated.docsetAddCases = addArmsNamed ∧
+    Generated.docsetApplyOpts = applyOptsStepsM ∧ Generated.docsetNewContext = newContextStepsM ∧
+    Generated.docsetDefaultOpts = defaultOpts.map Opt.sig ∧
+    Generated.docsetOptions = optionTable ∧
+    (∀ (s : State Node) name doc newCtx, addContext s name doc newCtx = addContextT s name doc newCtx) ∧
+    (∀ (ctx : Ctx Node),
+      (∀ ts, applyOpt ctx (.withTags ts) = { ctx with tags := ctx.tags ++ ts }) ∧
+      applyOpt ctx .mergeTags = { ctx with mergeFn := .mergeTags } ∧
+      applyOpt ctx .mustCreate = { ctx with mergeFn := .mustCreate }) ∧
+    (∀ opts, (applyOpts opts : Ctx Node) = (defaultOpts ++ opts).foldl applyOpt ⟨none, [], .none⟩) ∧
+    (∀ (s : State Node) name doc newCtx ex ctor, AMap.get? s.ctxMap name = some ex →
+      newCtx.mergeFn.ctor = some ctor →
+      addContext s name doc newCtx = reAddBy Generated.docsetOptions s name newCtx ex ctor) := by
+  have hopt : Generated.docsetOptions = optionTable := by decide +kernel
+  refine ⟨by decide +kernel, by decide +kernel, by decide +kernel, by decide +kernel, by decide +kernel,
+    hopt, addContext_eq_table, applyOpt_effects, applyOpts_order, ?_⟩
+  intro s name doc newCtx ex ctor hx hc
+  rw [hopt]
+  exact addContext_reAdd_eq_table s name doc newCtx ex ctor hx hc
+
+/-- the statements of a regenerated option constructor -/
+def optionG (ctor : String) : List String := (Generated.docsetOptions.lookup ctor).getD []
+
+/-- (ii) The re-add policy of the property on the regenerated tables.  Existing name with a merge
+    function: the function runs on (existing context, new document) and its error is returned BEFORE
+    anything is stored — so must-create, whose function only returns ErrLayerAlreadyExists, fails and
+    changes nothing; merge-tags unions the tags of the call with the stored ones and keeps the stored
+    document (it never reads the new one) unless there is none; the name is not appended again.
+    Existing name without a merge function (the default): the newly added document is put into the new
+    context — which carries the tags given on that call — and that context replaces the stored one; the
+    name is not appended again.  New name: document set, context stored, name appended once.  Every
+    context gets the tag `*` first (the value of analytics.wildcardTag), then the caller's options;
+    WithTags only appends its tags. -/
+theorem docset_table_rule :
+    armSteps Generated.docsetAddCases "v1&&arg2.mergeFn!=nil" =
+      some ["v2:=arg2.mergeFn(v0,arg1)", "if v2!=nil{return v2}", "recv.ctxMap[arg0]=arg2", "return nil"] ∧
+    armSteps Generated.docsetAddCases "v1&&otherwise" =
+      some ["arg2.doc=arg1", "recv.ctxMap[arg0]=arg2", "return nil"] ∧
+    armSteps Generated.docsetAddCases "otherwise" =
+      some ["arg2.doc=arg1", "recv.ctxMap[arg0]=arg2", "recv.names=append(recv.names,arg0)", "return nil"] ∧
+    Generated.docsetAddLookup = "v0,v1:=recv.ctxMap[arg0]" ∧
+    optionG "MustCreate" = ["own.mergeFn:return ErrLayerAlreadyExists"] ∧
+    optionG "MergeTags" = ["own.mergeFn:own.tags=utils.Unique(append(own.tags,other.tags...))",
+                           "own.mergeFn:if own.doc==nil{own.doc=other.doc}", "own.mergeFn:return nil"] ∧
+    optionG "WithTags" = ["own.tags=append(own.tags,arg0...)"] ∧
+    Generated.docsetDefaultOpts = [("WithTags", "*")] ∧
+    Generated.const? "analytics.wildcardTag" = some "*" ∧
+    Generated.docsetApplyOpts[0]? = some "for _,v0 in defaultOpts{v0(recv,arg0,arg1)}" ∧
+    Generated.docsetApplyOpts[1]? = some "for _,v1 in arg2{v1(recv,arg0,arg1)}" ∧
+    Generated.docsetNewContext = ["return recv.applyOpts(arg0,&docContext{},arg1...)"] := by
+  decide +kernel
+
+/-- (iii) the tables are not empty: three arms with distinct conditions ending in the catch-all, every
+    arm ends by returning nil, the three option constructors are there -/
+theorem nonvacuous_docset_tables :
+    Generated.docsetAddCases.length = 3 ∧ (conds Generated.docsetAddCases).Nodup ∧
+    Generated.docsetAddCases.getLast?.map (·.cond) = some "otherwise" ∧
+    (∀ a ∈ Generated.docsetAddCases, a.steps.getLast? = some "return nil") ∧
+    Generated.docsetOptions.map (·.1) = ["MergeTags", "MustCreate", "WithTags"] ∧
+    (∀ o ∈ Generated.docsetOptions, o.2 ≠ []) := by
+  decide +kernel
+
+end DecisionTables2
+
 open Ytk.DocSet
 variable {δ : Type}
 
